@@ -164,6 +164,7 @@ structure RW where
   cRespComp : Option Bytes := none -- op.client.respCompression = op.server.respCompression
   sameRespCodec : Bool := false
   active : Bool := false           -- a responseWriter exists (handle() got that far)
+  statusCode : Nat := 0            -- w.code
   deriving Repr
 
 /-- Combined state of one request in flight. -/
@@ -564,7 +565,7 @@ def twClose (w : World) (tb : Tables) (st : St) (t : TW) : St × Bool :=
 /-- `responseWriter.WriteHeader`. -/
 def rwWriteHeader (w : World) (tb : Tables) (st : St) (status : Nat) : St × Bool :=
   if st.rw.headersWritten then (st, false) else
-  let st := { st with rw := { st.rw with headersWritten := true } }
+  let st := { st with rw := { st.rw with headersWritten := true, statusCode := status } }
   if st.rw.endWritten then (st, false) else
   -- httpExtractContentLength
   let clText := st.hdr.get (s "Content-Length")
@@ -644,8 +645,8 @@ def errorWriterClose (w : World) (tb : Tables) (st : St) (body : Bytes) (kind : 
   let e := match body?, kind with
     | some b, .connectUnaryError =>
       match tb.jsonErr b with
-      | some err => { e with err := some err }
-      | none => { e with err := some (genErr 13) }
+      | some err => { e with err := some (if err.code == 0 then { err with code := httpStatusToRPC st.rw.statusCode } else err) }
+      | none => { e with err := some (genErr (httpStatusToRPC st.rw.statusCode)) }
     | _, _ => e
   let st := { st with rw := { st.rw with respMeta := some { rm with «end» := some e } } }
   flushHeaders w st
